@@ -181,17 +181,23 @@ def covers (r : Pair) (th tl : Bytes) : Bool :=
 def findCovering (pairs : List Pair) (th tl : Bytes) : Option Pair :=
   pairs.find? fun r => covers fx enc r th tl
 
-/-- `EncloserCandidates::next` iterated: `cur`, `cur.base_name()`, … up to and including the SOA name.
+/-- `EncloserCandidates::next` iterated, from the fully qualified name with labels `ls` (every
+`base_name()` result is fully qualified): the name, its parent, … up to and including the SOA name.
 (A name without labels different from the SOA cannot occur when `soa.zone_of(query)`, both fqdn and
 the SOA is not the root; the Rust would `debug_assert`/loop there.) -/
+def candidatesTail (soa : Name) : List Bytes → List Name
+  | [] => [{ labels := [], fqdn := true }]
+  | l :: rest =>
+    if Name.eq { labels := l :: rest, fqdn := true } soa then [{ labels := l :: rest, fqdn := true }]
+    else { labels := l :: rest, fqdn := true } :: candidatesTail soa rest
+
+/-- the iterator started at `cur` (the query name) -/
 def candidatesFrom (soa : Name) (cur : Name) : List Name :=
   if Name.eq cur soa then [cur]
   else
-    match _h : cur.labels with
+    match cur.labels with
     | [] => [cur]
-    | _ :: rest => cur :: candidatesFrom soa { labels := rest, fqdn := true }
-termination_by cur.labels.length
-decreasing_by simp [_h]
+    | _ :: rest => cur :: candidatesTail soa rest
 
 /-- `Context::encloser_candidates` -/
 def encloserCandidates (q : Name) (soa : Option Name) : List Name :=
@@ -260,55 +266,64 @@ def validateNxdomain (q : Name) (soa : Option Name) (pairs : List Pair) : Proof 
 /-- the labels of `next_closer_name` in case 4: the last `wl + 1` labels of the query name -/
 def lastLabels (q : Name) (k : Nat) : List Bytes := q.labels.drop (q.labels.length - k)
 
+/-- (repair `wild`) the response is a wildcard expansion: answer RRSIG labels < QNAME labels -/
+def wildExp (q : Name) (wl : Option Nat) : Bool :=
+  fx.wild && (match wl with
+              | some k => decide (k < q.numLabels)
+              | none => false)
+
+/-- case 2 of `validate_nodata_response`: a record matching QNAME was found -/
+def nodataMatch (qtype : Nat) (r : Pair) : Proof :=
+  if r.data.types.contains qtype || r.data.types.contains tCNAME then .bogus
+  else if fx.deleg && qtype != tDS && isDelegNS r.data then .bogus
+  else .secure
+
+/-- case 3: DS query, QNAME covered by an Opt-Out record -/
+def dsOptOut (q : Name) (qtype : Nat) (pairs : List Pair) : Bool :=
+  qtype == tDS && (match findCovering fx enc pairs (H q) (enc (H q)) with
+                   | some x => x.data.optOut
+                   | none => false)
+
+/-- case 4: an answer RRSIG with `k` labels was seen (wildcard expansion) -/
+def nodataWildAnswer (q : Name) (k : Nat) (pairs : List Pair) : Proof :=
+  if q.numLabels ≤ k then .bogus
+  else
+    match Name.fromLabels (lastLabels q (k + 1)) with
+    | .ok nc =>
+      let ni := info H enc nc
+      match findCovering fx enc pairs ni.hash ni.label with
+      | some ncr => if fx.optout && ncr.data.optOut then .insecure else .secure
+      | none => .bogus
+    | _ => .bogus -- `expect`: cannot fail for a suffix of a valid name
+
+/-- case 5: wildcard no data (and the two extra arms) -/
+def nodataWildNoData (q : Name) (qtype : Nat) (soa : Option Name) (pairs : List Pair) : Proof :=
+  match cepWithWildcard fx H enc q soa pairs true with
+  | (cep, wc) =>
+    match cep.ce, cep.nc, wc with
+    | some (_, cr), some (_, ncr), some (_, w) =>
+      if !w.data.types.contains qtype && !w.data.types.contains tCNAME then
+        if fx.deleg && isDelegationRec cr.data then .bogus
+        else if fx.optout && ncr.data.optOut then .insecure
+        else .secure
+      else .bogus
+    | none, some _, some _ =>
+      if eqSoa soa (parent q) then .secure else .bogus
+    | none, none, none =>
+      if !fx.apex && eqSoa soa q then .secure else .bogus
+    | _, _, _ => .bogus
+
 /-- `validate_nodata_response` -/
 def validateNodata (q : Name) (qtype : Nat) (soa : Option Name) (wl : Option Nat)
     (pairs : List Pair) : Proof :=
-  let qh := H q
-  let ql := enc qh
-  -- (repair `wild`) a wildcard expansion is only ever validated by case 4
-  let wildExp := fx.wild && (match wl with
-                             | some k => decide (k < q.numLabels)
-                             | none => false)
-  match (if wildExp then none else findMatching pairs ql) with
-  | some r =>
-    -- case 2
-    if r.data.types.contains qtype || r.data.types.contains tCNAME then .bogus
-    else if fx.deleg && qtype != tDS && isDelegNS r.data then .bogus
-    else .secure
+  match (if wildExp fx q wl then none else findMatching pairs (enc (H q))) with
+  | some r => nodataMatch fx qtype r
   | none =>
-    -- case 3
-    if !wildExp && qtype == tDS && (match findCovering fx enc pairs qh ql with
-                        | some x => x.data.optOut
-                        | none => false) then .secure
+    if !wildExp fx q wl && dsOptOut fx H enc q qtype pairs then .secure
     else
       match wl with
-      | some k =>
-        -- case 4
-        if q.numLabels ≤ k then .bogus
-        else
-          match Name.fromLabels (lastLabels q (k + 1)) with
-          | .ok nc =>
-            let ni := info H enc nc
-            match findCovering fx enc pairs ni.hash ni.label with
-            | some ncr => if fx.optout && ncr.data.optOut then .insecure else .secure
-            | none => .bogus
-          | _ => .bogus -- `expect`: cannot fail for a suffix of a valid name
-      | none =>
-        -- case 5
-        match cepWithWildcard fx H enc q soa pairs true with
-        | (cep, wc) =>
-          match cep.ce, cep.nc, wc with
-          | some (_, cr), some (_, ncr), some (_, w) =>
-            if !w.data.types.contains qtype && !w.data.types.contains tCNAME then
-              if fx.deleg && isDelegationRec cr.data then .bogus
-              else if fx.optout && ncr.data.optOut then .insecure
-              else .secure
-            else .bogus
-          | none, some _, some _ =>
-            if eqSoa soa (parent q) then .secure else .bogus
-          | none, none, none =>
-            if !fx.apex && eqSoa soa q then .secure else .bogus
-          | _, _, _ => .bogus
+      | some k => nodataWildAnswer fx H enc q k pairs
+      | none => nodataWildNoData fx H enc q qtype soa pairs
 
 /-- `verify_nsec3`.  `wl` is `answers.iter().find_map(RRSIG → num_labels)`; `rcode` the numeric
 response code.  An empty `recs` violates the caller's precondition (`debug_assert!`, then `pairs[0]`
